@@ -468,8 +468,8 @@ class TexNode(object):
         """
 
         for arg in self.parent.args:
-            if self in arg.contents:
-                arg.remove(self)
+            if any(content is self.expr for content in arg._contents):
+                arg.remove(self.expr)
                 return
         self.parent.remove(self)
 
@@ -589,7 +589,7 @@ class TexNode(object):
         \end{itemize}
         """
         for arg in self.expr.args:
-            if child.expr in arg._contents:
+            if any(content is child.expr for content in arg._contents):
                 arg.insert(arg.remove(child.expr), *nodes)
                 return
         self.expr.insert(
@@ -841,8 +841,13 @@ class TexExpr(object):
         TexExpr('textbf', [])
         """
         self._assert_supports_contents()
-        index = self._contents.index(expr)
-        self._contents.remove(expr)
+        # prefer the very object over the first textually equal sibling
+        for index, content in enumerate(self._contents):
+            if content is expr:
+                break
+        else:
+            index = self._contents.index(expr)
+        del self._contents[index]
         return index
 
     def _supports_contents(self):
